@@ -45,8 +45,11 @@ def gen(rng, tier):
         elif r < 0.12:
             S = S + [max(present) + 3]
             mal = 'absent'
-        yield {'trajs': trajs, 'lag': lag, 'S': S, 'F': F, 'steps': rng.choice([1, 2, 5, 20, 100, 500, 2000]),
-               'seed': rng.randrange(2**31), 'npseed': rng.randrange(2**31), 'alpha': akind, 'mal': mal}
+        case = {'trajs': trajs, 'lag': lag, 'S': S, 'F': F, 'steps': rng.choice([1, 2, 5, 20, 100, 500, 2000]),
+                'seed': rng.randrange(2**31), 'npseed': rng.randrange(2**31), 'alpha': akind, 'mal': mal}
+        if rng.random() < 0.15:
+            case['lagtype'] = rng.choice(['int8', 'int8', 'int16', 'int32', 'int64'])      # NumPy integer scalars as lag time
+        yield case
     for case in gen_long(rng, tier):
         yield case
     for case in gen_wide(rng, tier):
@@ -141,7 +144,8 @@ def impl(case):
         return d
     huge = case.get('long') == 'huge-steps'
     out['us'] = [] if huge else [u.hex() for u in draws(steps)]
-    kw = dict(trajs=trajs, lagtime=case['lag'], start=case['S'], final=case['F'], steps=steps)
+    lagv = np.dtype(case['lagtype']).type(case['lag']) if case.get('lagtype') else case['lag']
+    kw = dict(trajs=trajs, lagtime=lagv, start=case['S'], final=case['F'], steps=steps)
 
     def guarded(f):
         try:
